@@ -11,7 +11,7 @@ def run(tier):
     # (spec, ops, target word indices, split the first op over parallel conditions?); the target lists contain a word that is a
     # strict prefix of a sentence (prefix: 2 = "xy", rec: 2 = "a=", list: 3 = "a,") so that the prefix-mode observations are non-empty
     if tier == "quick":
-        plan = [("amb", 2, [0, 1], True), ("prefix", 1, [0, 2], False), ("open", 1, [0], False), ("rec", 1, [2], False)]
+        plan = [("amb", 2, [0], True), ("prefix", 1, [0, 2], False), ("open", 1, [0], False), ("rec", 1, [2], False)]  # amb target 1 runs in the thorough tier only (900 s budget, vp check feedback)
     else:
         plan = [("amb", 3, [0], True), ("amb", 2, [1], True), ("prefix", 2, [0, 2, 3], True), ("open", 2, [0, 1], True), ("rec", 2, [0, 2], True), ("list", 2, [0, 3], True)]
     for spec, nops, targets, split in plan:
